@@ -171,6 +171,7 @@ def c06(facts, tier):
     rep.floor("R-GUARD(valid)", "public entry points (Evaluator/Encryptor/Decryptor/decoders)", len(ents), 115)
     n_pairs, n_eff = r_guard.check_validity(facts, rep, eng, ents)
     r_guard.check_key_material(facts, rep)
+    r_meta.check_resize_guards(facts, rep)
     rep.floor("R-GUARD(valid)", "(entry, operand) pairs", n_pairs, 100)
     rep.floor("R-GUARD(valid)", "(entry, operand) pairs with a guarded first use", n_eff, 100)
     rep.extra["guard_engine"] = eng.stats
@@ -384,6 +385,7 @@ def c02(facts, tier):
     n = r_contra.run_pairwise(facts, rep, None if tier == "thorough" else {"src/evaluator.rs"})
     rep.floor("R-CONTRA(pairs)", "pairwise-consuming loops", n, 1)
     r_tensor.run(facts, rep, fnames=("ckks_multiply", "bgv_multiply"), floor=2)
+    r_tensor.run_operand_loops(facts, rep)
     r_family.run_negacyclic(facts, rep, floor=1)
     return rep
 
@@ -525,6 +527,7 @@ def c12(facts, tier):
     n = r_contra.run_absmod(facts, rep, {"src/ckks_encoder.rs"})
     rep.floor("R-CONTRA(absmod)", "reduced magnitudes of signed locals", n, 1)
     r_encadmit.run(facts, rep, floor=4)
+    r_encadmit.run_component_modulus(facts, rep)
     r_outcover.run(facts, rep, floor=2, **({"files": tuple({facts.items[p]["file"] for p in facts.hir})} if tier == "thorough" else {}))
     r_contra.run_wrapcast(facts, rep, None if tier == "thorough" else {"src/ckks_encoder.rs", "src/batch_encoder.rs"})
     return rep
@@ -846,6 +849,7 @@ def c19(facts, tier):
     r_lwepair.run_levels(facts, rep)
     r_lwepair.run_packmeta(facts, rep)
     r_lwepair.run_packshift(facts, rep)
+    r_lwepair.run_packelement(facts, rep)
     ents = [p for p in facts.items if p.startswith("app::lwe::") and facts.items[p].get("vis") == "pub" and p in facts.hir]
     repstate(facts, rep, ents, 40)
     r_loop.run(facts, rep, {"src/app/lwe.rs"}, level_walk=False)
